@@ -8,7 +8,10 @@ Inductive impl_out := IOk (o : observation) | ICrash.
    (stream run by the real `yash3` binary: probes are observed through files,
    so only how often each (key, `$?`) pair occurred is known), and what the
    real shell did *)
-Definition case := (prog * option N * bool * impl_out)%type.
+Definition case := (prog * option N * bool * option xspec * impl_out)%type.
+(* the fourth component: the script is [xscript x] of the extension stream
+   (further error categories at composed positions); then the table oracle
+   [xoracle x] is evaluated on the implementation's output as well *)
 
 Definition fuel : nat := 3000.
 
@@ -67,12 +70,18 @@ Definition diagnose_unordered (trapkey : option N) (e o : observation) : verdict
   else 2%N.
 
 Definition run_case (c : case) : verdict :=
-  let '(p, trapkey, unordered, out) := c in
+  let '(p, trapkey, unordered, xs, out) := c in
   match out with
   | ICrash => 7%N
   | IOk o =>
+      let xtable :=
+        match xs with
+        | Some x => if xoracle x o then 0%N else 8%N
+        | None => 0%N
+        end in
       let oracle :=
-        if wf_prog p then
+        if negb (N.eqb xtable 0) then xtable
+        else if wf_prog p then
           match spec_run fuel p with
           | Some e => if unordered then diagnose_unordered trapkey e o else diagnose trapkey e o
           | None => 99%N
